@@ -48,27 +48,32 @@ def namesNodup : List Tree → Bool
   | [] => true
   | t :: ts => !(ts.any fun u => u.name = t.name) && namesNodup ts
 
-mutual
+/-- `for x in xs: ys.append(g(x))`, stopping at the first failure -/
+def mapE {α β : Type} (g : α → Except Err β) : List α → Except Err (List β)
+  | [] => .ok []
+  | x :: xs =>
+    match g x with
+    | .error e => .error e
+    | .ok y =>
+      match mapE g xs with
+      | .error e => .error e
+      | .ok ys => .ok (y :: ys)
+
 /-- `_recursive_add_child(parent_node)`: the rows whose parent is `pname`, in row order, each
-    becoming a child whose own children are built recursively. Fuel = recursion depth left. -/
+    becoming a child (`node_type(**row)`, refused with `TreeError` on an empty name) whose own
+    children are built recursively. Fuel = recursion depth left. -/
 def build (rows : List Row) : Nat → Str → Except Err (List Tree)
   | 0, _ => .error .other
   | f + 1, pname =>
-    match buildL rows f (rows.filter fun r => r.parent = some pname) with
+    match mapE (fun r =>
+        if r.child = [] then .error .tree
+        else
+          match build rows f r.child with
+          | .error e => .error e
+          | .ok cs => .ok (.node 0 r.child (rowAttrs r) cs))
+        (rows.filter fun r => r.parent = some pname) with
     | .error e => .error e
     | .ok cs => if namesNodup cs then .ok cs else .error .tree
-def buildL (rows : List Row) : Nat → List Row → Except Err (List Tree)
-  | _, [] => .ok []
-  | f, r :: rs =>
-    if r.child = [] then .error .tree
-    else
-      match build rows f r.child with
-      | .error e => .error e
-      | .ok cs =>
-        match buildL rows f rs with
-        | .error e => .error e
-        | .ok ts => .ok (.node 0 r.child (rowAttrs r) cs :: ts)
-end
 
 /-- `dataframe_to_tree_by_relation(data, allow_duplicates=…)` -/
 def relToTree (allowDup : Bool) (rows : List Row) : Except Err Tree :=
@@ -193,3 +198,22 @@ def heapTree (xs : List Int) : Nat → Nat → BTree
     | some v => .node i (toString v).toList [] (heapTree xs f (2 * i + 1)) (heapTree xs f (2 * i + 2))
 
 end Heap
+
+/-! ## specification side: the edge list of a tree -/
+namespace Rel
+open Paths
+
+mutual
+/-- all (child, parent, attributes) rows of a tree: the rows of the root's children, then the
+    rows of each child's subtree -/
+def edges : Tree → List Row
+  | .node _ n _ cs => cs.map (fun c => Row.mk c.name (some n) c.attrs) ++ edgesAll cs
+def edgesAll : List Tree → List Row
+  | [] => []
+  | c :: cs => edges c ++ edgesAll cs
+end
+
+/-- a row as it is reflected in the tree: missing cells dropped -/
+def norm (r : Row) : Row := { r with attrs := rowAttrs r }
+
+end Rel
